@@ -158,7 +158,8 @@ void AbstractParameterAliasable::aliasParameters(map<string, string>& unparsedPa
       p2->setName(it->first);
       plpars.addParameter(p2.release());
       plpars.parameter(it->first);
-      aliasParameters(it->second, it->first);
+      // (the map holds full names, the two-name form expects them without the namespace)
+      aliasParameters(getParameterNameWithoutNamespace(it->second), getParameterNameWithoutNamespace(it->first));
       if (verbose)
         ApplicationTools::displayResult("Parameter alias found", it->first + " -> " + it->second + " = " + TextTools::toString(pp->getValue()));
       it = unparsedParams.erase(it);
